@@ -141,10 +141,19 @@ def run(chk):
         towers.append(rnd.choice([a, a, "%s * %s" % (a, tower(rnd.randint(2, 5))), "%s / %s" % (a, tower(rnd.randint(2, 5))), "%s * 1%s" % (a, u), "%s to %s" % (a, u),
                                   "%s + %s" % (a, a), "round(%s)" % a]))
     towers += ["((((1m^99)^99)^99)^99)^99", "(1m^50000)^50000", "((((1m^99)^99)^99)^22) * ((((1m^99)^99)^99)^22)", "((((1J^99)^99)^99)^99)^12 * 1 m", "1 m^99 m^99 m^99"]
-    strings = [s for s in fixed + edge + towers + soups + uni if not TOO_BIG.search(s)]
-    chk.cov["filtered_beyond_stated_bounds"] = len(fixed + edge + towers + soups + uni) - len(strings)
+    # long tokens with a multi-byte character at every byte offset: whatever cuts, pads or quotes a piece of the query at a
+    # fixed length meets a character boundary sooner or later
+    longtok = []
+    for k in range(0, 72):
+        for mb in ("°", "é", "\u00a0", "日", "😀"):
+            body = "q" * k + mb + "q" * rnd.randint(1, 6)
+            longtok += [rnd.choice(["1 " + body, body, "1 to " + body, "1 m" + body, body + "(1)", "{" + body + "}", "1 " + body + " + 1", "a b " + body + " c",
+                                    "1 k" + body, "round(1, " + body + ")", "1 " + body + "^2"])]
+    strings = [s for s in fixed + edge + towers + longtok + soups + uni if not TOO_BIG.search(s)]
+    chk.cov["filtered_beyond_stated_bounds"] = len(fixed + edge + towers + longtok + soups + uni) - len(strings)
     chk.cov["structured_edge_cases"] = len(edge)
     chk.cov["towers_of_powers"] = len(towers)
+    chk.cov["long_tokens_with_multibyte_characters"] = len(longtok)
     for profile in ("dbg", "release"):
         run_strings(chk, strings, "c11-strings", "soups and Unicode strings", profile)
     # a sample through the real binary
